@@ -5,5 +5,6 @@ func genExtra(repo string) map[string]string {
 	return map[string]string{
 		"Gen_consts.v":     genConsts(),
 		"Gen_des_tables.v": genDesTables(),
+		"Gen_layouts.v":    genLayouts(),
 	}
 }
